@@ -123,15 +123,20 @@ def gen_cases(tier, seed):
         except Exception as e:       # a generator that cannot run must not hide the rest
             cs.append(Case("borrow_err_%s" % mod.__name__.split(".")[-1], "hostile", ["c", hx(md5), hx(sch)], "borrow-error", False, {"error": repr(e)}))
             continue
-        n = 0
+        # quick tier: a cap per (driver, kind) -- not per package, which starved the kinds a generator emits late
+        # (seed C20-2: the non-ASCII header lines of C17 come after 700 other malformed requests)
+        per = {}
         for c in sub:
             if any(m in c.kind for m in marks):
+                key = (c.drv, c.kind)
+                cap = 40 if c.drv in ("socks", "http_e2e", "http_read", "authtls", "dial", "udpe2e") else 120
+                if tier == "quick" and per.get(key, 0) >= cap:
+                    continue
+                per[key] = per.get(key, 0) + 1
                 c.meta = dict(c.meta or {}, borrowed=mod.__name__.split(".")[-1])
                 c.cid = "%s_%s" % (mod.__name__.split(".")[-1], c.cid)
                 c.kind = "%s:%s" % (mod.__name__.split(".")[-1], c.kind)
-                cs.append(c); n += 1
-                if tier == "quick" and n >= (60 if c.drv in ("socks", "http_e2e", "http_read", "authtls", "dial", "udpe2e") else 150):
-                    break
+                cs.append(c)
     return cs
 
 
